@@ -190,18 +190,49 @@ func c24(x *ctx) {
 	sameIdx := len(cases)
 	cases = append(cases, &engine.Case{Cfg: "core", Files: map[string]string{"t.rb": sameName}, Argv: []string{"t.rb", "--llm-nav", "--target=speak"}})
 	refs = append(refs, cref{-1, "speak"})
+	// user-defined operator methods called in operator syntax: `--target=+` and `--target===`
+	opSrc := "class Vecq\n  def initialize(x)\n    @x = x\n  end\n\n  def +(other)\n    Vecq.new(1)\n  end\n\n  def ==(other)\n    true\n  end\nend\nva = Vecq.new(1)\nvb = Vecq.new(2)\nvc = va + vb\nif va == vb\n  vd = va + va\nend\n[va].each { |ve| ve + vb }\nvf = va == vc\n"
+	opIdx := len(cases)
+	opWant := map[string][]int{"+": {16, 18, 20}, "==": {17, 21}}
+	for _, tgt := range []string{"+", "=="} {
+		cases = append(cases, &engine.Case{Cfg: "core", Files: map[string]string{"t.rb": opSrc}, Argv: []string{"t.rb", "--llm-nav", "--target=" + tgt}})
+		refs = append(refs, cref{-2, tgt})
+	}
 	res := x.pool.RunAll(cases)
 	type viol struct {
 		idx  int
 		desc string
 	}
 	bySig := map[string][]viol{}
+	for k, tgt := range []string{"+", "=="} {
+		rr := res[opIdx+k]
+		var rows []string
+		for _, l := range strings.Split(rr.Stdout, "\n") {
+			if strings.Contains(l, "- call point: t.rb:") {
+				rows = append(rows, strings.TrimSpace(strings.SplitN(l, "t.rb:", 2)[1]))
+			}
+		}
+		var want []string
+		for _, w := range opWant[tgt] {
+			want = append(want, fmt.Sprint(w))
+		}
+		sort.Strings(rows)
+		sort.Strings(want)
+		if strings.Join(rows, ",") != strings.Join(want, ",") {
+			s := "c24:operator-target:" + tgt
+			bySig[s] = append(bySig[s], viol{opIdx + k, fmt.Sprintf("--target=%s: call points on rows %v, the source calls it on rows %v", tgt, rows, want)})
+		}
+	}
 	var recs []execRec
 	for i, rr := range res {
 		r.Evaluations++
 		r.Transitions++
 		r.Nontrivial++
 		ref := refs[i]
+		if ref.pi == -2 {
+			r.Outcome(rr.Stdout)
+			continue // operator targets are judged above
+		}
 		if i == sameIdx {
 			r.Outcome(rr.Stdout)
 			n := strings.Count(rr.Stdout, "\n## ")
